@@ -192,18 +192,20 @@ def oracle(ck, tier, deep):
     # circularize: constant correction / already circular image
     for it in range(12 if not deep else 80):
         nimg = int(rng.choice([51, 101]))
-        yy, xx = np.mgrid[:nimg, :nimg] - nimg // 2
+        ncol = nimg if it % 3 else int(rng.choice([nimg - 20, nimg + 14, nimg + 31]))        # non-square frames too
+        yy, xx = np.mgrid[:nimg, :ncol]
+        yy, xx = yy - nimg // 2, xx - ncol // 2
         r = np.hypot(yy, xx)
-        im = np.exp(-(r - nimg / 4) ** 2 / 9.0) + 0.2 * rng.random((nimg, nimg))
+        im = np.exp(-(r - min(nimg, ncol) / 4) ** 2 / 9.0) + 0.2 * rng.random((nimg, ncol))
         cval = float(rng.uniform(0.5, 2.0))
         ref = None if rng.random() < 0.5 else float(rng.uniform(-3, 3))
         if it == 0:            # fixed probe of the recorded finding F20
             cval, ref = 1.1697745804289952, None
-        ck.count(("S.circ", nimg, ref is None), suite="S.circularize")
+        ck.count(("S.circ", nimg, (ncol > nimg) - (ncol < nimg), ref is None), suite="S.circularize")
         out = circularize.circularize(im, lambda t: np.full(np.shape(t), cval), ref_angle=ref)
         inner = np.abs(out - im)[1:-1, 1:-1].max()
         border = max(np.abs(out - im)[0].max(), np.abs(out - im)[-1].max(), np.abs(out - im)[:, 0].max(), np.abs(out - im)[:, -1].max())
-        rep = dict(n=nimg, constant=cval, ref_angle=ref)
+        rep = dict(shape=[nimg, ncol], constant=cval, ref_angle=ref)
         if inner > 1e-10:
             ck.violation(dict(site="circularize", clause="constant-correction", where="interior"), rep, f"interior changed by {inner:.3g}")
         if border > 1e-10:
